@@ -5,7 +5,7 @@
    the pawn / king / castling blocks, is_capture = the rules' capture relation and the attack queries = the rules'
    attack relation are decided by the correspondence run against spec/Rules.v. *)
 From Coq Require Import NArith ZArith List Bool.
-From Rawr Require Import Consts Bits Magic Position MoveGen MakeMove MakeStages Rules Abs NotationFacts KeyAbs AttackFacts AttackAbs CountFacts.
+From Rawr Require Import Consts Bits Magic Position MoveGen MakeMove MakeStages Rules Abs NotationFacts KeyAbs AttackFacts AttackAbs CountFacts AttackSets CaptureFacts.
 Import ListNotations.
 Local Open Scope N_scope.
 
@@ -41,6 +41,25 @@ Theorem C08_attack_query_premises : forall p, attack_pre_b p = true ->
   forall sq us, sq < 64 -> is_sq_attacked p sq us = spec_attacked p sq us.
 Proof. exact attack_query_premises. Qed.
 
+(* the set-valued queries: "any square of this set", "which squares of this set", "is either side in check" *)
+Theorem C08_set_query_is_the_rules : forall p bb us, attack_pre_b p = true -> bb < TWO64 ->
+  is_bb_attacked p bb us = existsb (fun sq => spec_attacked p sq us) (bits bb).
+Proof. exact is_bb_attacked_rules. Qed.
+Theorem C08_attacked_subset_is_the_rules : forall p mask us x, attack_pre_b p = true -> x < 64 ->
+  N.testbit (get_attacked p mask us) x = N.testbit mask x && spec_attacked p x us.
+Proof. exact get_attacked_rules. Qed.
+Theorem C08_in_check_is_the_rules : forall p, attack_pre_b p = true ->
+  in_check p = spec_attacked p (lsb (N.land (kings p) (c_us p))) false
+  /\ in_check_them p = spec_attacked p (lsb (N.land (kings p) (c_them p))) true.
+Proof. intros p H. split; [exact (in_check_is_attacked_king p H)|exact (in_check_them_is_attacked_king p H)]. Qed.
+
+(* the capture-only generator returns exactly the generated moves that capture under the rules (en passant included,
+   castling excluded), in generation order, and the capture test classifies every generated move as the rules do *)
+Theorem C08_captures_are_the_capturing_moves : forall p, good_pos_b p = true ->
+  legal_captures p = filter (fun m => captures (abs_state p) (dec p m)) (legal_moves p)
+  /\ forall m, In m (legal_moves p) -> is_capture p (m_from m) (m_to m) = captures (abs_state p) (dec p m).
+Proof. exact good_pos_captures. Qed.
+
 Example C08_attack_example : attack_pre_b startpos = true /\ attack_pre_b (makenull startpos) = true.
 Proof. split; vm_compute; reflexivity. Qed.
 
@@ -53,3 +72,7 @@ Print Assumptions C08_count_sliders_eq.
 Print Assumptions C08_perft_unfold.
 Print Assumptions C08_perft_one.
 Print Assumptions C08_legal_captures_is_filter.
+Print Assumptions C08_set_query_is_the_rules.
+Print Assumptions C08_attacked_subset_is_the_rules.
+Print Assumptions C08_in_check_is_the_rules.
+Print Assumptions C08_captures_are_the_capturing_moves.
